@@ -41,12 +41,16 @@ def _data(slots, P, order=None, mirror=False, tref=None, sort=True):
     return RVData(Time(tt, format="mjd", scale="tcb"), rv, err, **kw)
 
 
-def _sample(P):
+def _sample(P, unit="day"):
     import astropy.units as u
     from thejoker import JokerSamples
 
     s = JokerSamples()
-    s["P"] = [P] * u.day
+    if unit == "day":
+        s["P"] = [P] * u.day
+    else:
+        # the same period stored in another unit
+        s["P"] = ([P] * u.day).to({"yr": u.yr, "h": u.hour}[unit])
     return s
 
 
@@ -92,7 +96,7 @@ def check_diag(case, part):
     P = case["P"]
     tref = tuple(case["tref"]) if case.get("tref") else None
     phases, base = ref_phases(slots, tref=tref)
-    samp = _sample(P)
+    samp = _sample(P, case.get("punit", "day"))
     want_gap = float(ref_max_gap(phases))
     want_span = float(base)  # baseline / P in cycles
     pos = [c * L + k for c, k in slots]
@@ -150,6 +154,8 @@ def check_map(case, part):
     s["ln_prior"] = np.array(lp, dtype=float)
     s["ln_likelihood"] = np.array(ll, dtype=float)
     tot = np.array(lp, dtype=float) + np.array(ll, dtype=float)
+    if not np.any(np.isfinite(tot)):
+        return  # no finite posterior value anywhere: nothing is defined
     try:
         m, idx = MAP_sample(s, return_index=True)
         m2 = MAP_sample(s)
@@ -184,7 +190,7 @@ def run_case(case, part):
 def shard(cases):
     part = core.Part()
     for c in cases:
-        run_case(c, part)
+        core.guard(run_case, c, part)
     return part
 
 
@@ -206,8 +212,9 @@ def build_cases(quick, seed):
                 for tref in (None, [-1, 3], [1, 2]):
                     if tref is not None and r > 3 and P != periods[1]:
                         continue
-                    cases.append(dict(kind="diag", slots=[list(s) for s in sub], P=P, bins=bins, orders=orders, tref=tref))
-    vals = [(-2.0, -1.0, 0.0)] * 2
+                    cases.append(dict(kind="diag", slots=[list(s) for s in sub], P=P, bins=bins, orders=orders, tref=tref,
+                                      punit=["day", "yr", "h"][(len(cases)) % 3]))
+    vals = [(-2.0, -1.0, 0.0, float("-inf"))] * 2  # -inf: a sample outside the support of a narrower prior
     maps = []
     pairs = list(itertools.product(*vals))
     for n in range(1, (4 if quick else 5)):
@@ -222,7 +229,7 @@ def main():
         "all subsets (size<=4 quick / 5 thorough) of a 7-per-cycle phase lattice over cycles {0,2} x 3 periods x 3 bin "
         "counts x input orders (all permutations for size<=3; each with sort=True and sort=False) x reference epoch {default, explicit before all "
         "observations, explicit between them} + time-reversed pattern, vs exact rational definitions; all "
-        "MAP tables with N<=3 (quick) / 4 rows over {-2,-1,0}^2 per row. Non-trivial (diag): the arc across phase 1->0 is "
+        "MAP tables with N<=3 (quick) / 4 rows over {-2,-1,0,-inf}^2 per row; the period stored in day / yr / h. Non-trivial (diag): the arc across phase 1->0 is "
         "strictly the largest; (MAP): the maximiser is not row 0 and sums are not all equal.",
     )
     cases, maps = build_cases(chk.quick, chk.seed)
